@@ -131,7 +131,7 @@ pub fn expand_env(sh: &Shell, tokens: &mut Tokens) { crate::shell::expand_env(sh
 pub fn expand_brace(tokens: &mut Tokens) { crate::shell::verif_export::expand_brace(tokens) }
 pub fn expand_glob(tokens: &mut Tokens) { crate::shell::expand_glob(tokens) }
 pub fn expand_brace_range(tokens: &mut Tokens) { crate::shell::verif_export::expand_brace_range(tokens) }
-pub fn expand_one_env(sh: &Shell, token: &str) -> String { crate::shell::verif_export::expand_one_env(sh, token) }
+pub fn expand_envs_in_token(sh: &Shell, token: &str) -> String { crate::shell::verif_export::expand_envs_in_token(sh, token) }
 pub fn env_in_token(token: &str) -> bool { crate::shell::verif_export::env_in_token(token) }
 pub fn need_expand_brace(line: &str) -> bool { crate::shell::verif_export::need_expand_brace(line) }
 pub fn should_do_dollar(line: &str) -> bool { crate::shell::verif_export::should_do_dollar_command_extension(line) }
